@@ -132,6 +132,31 @@ def atoms_for(spec, rich):
     return out
 
 
+def triples(spec, only=None):
+    """mention - delete - use: a patch in front of block L mentions L's label, L is deleted wholly (its label slides on),
+    and a patch behind L branches to / calls / mentions the label again - three modifications whose cache effects
+    depend on each other (every L, every pair of blocks around it, every offset at the block ends)"""
+    blocks = [b for s in spec["sections"] for b in s["blocks"]]
+    known = _labels_of(spec)
+    for li, L in enumerate(blocks):
+        if L["k"] != "c" or L["n"] not in known or L.get("anon") or (only is not None and li != only):
+            continue
+        for first in (["lea", L["n"]], ["jcc", L["n"]]):
+            for last in (["jcc", L["n"]], ["call", L["n"]], ["lea", L["n"]]):
+                for xi, X in enumerate(blocks):
+                    for yi, Y in enumerate(blocks):
+                        if not (xi < li < yi) or X["k"] != "c" or Y["k"] != "c":
+                            continue
+                        for kx in (0, len(X["i"])):
+                            for ky in (0, len(Y["i"])):
+                                for proxy in (False, True):
+                                    d = {"op": "del", "b": L["n"], "k": 0, "n": len(L["i"])}
+                                    if proxy:
+                                        d["proxy"] = True
+                                    yield [{"op": "ins", "b": X["n"], "k": kx, "p": [first, ["p", 0]]}, d,
+                                           {"op": "ins", "b": Y["n"], "k": ky, "p": [last, ["p", 0]]}]
+
+
 # ------------------------------------------------------------------ oracle 2: invariants at hook events
 def walk_referent(rc, s):
     from gtirb_rewriting._modify.cache import RefNode
@@ -430,6 +455,8 @@ def tasks(tier):
         na = len(atoms_for(spec, True))
         for i in range(na):
             t.append((name, n, i, True))
+        for li in range(len([b for s_ in spec["sections"] for b in s_["blocks"]])):
+            t.append((name, "triple", li, True))
     return t
 
 
@@ -443,6 +470,15 @@ def run_task(task):
     name, n, first, rich = task
     res = TaskResult()
     spec = SHAPES[name]
+    if n == "triple":
+        for mods in triples(spec, first):
+            mods = scen.retag(mods)
+            outcome, diffs = check(spec, mods, res)
+            res.case((name, mods), nontrivial=True, outcome=outcome[:60])
+            if diffs:
+                res.bad({"shape": name, "mods": mods}, diffs)
+            res.sample({"shape": name, "mods": mods}, cap=1)
+        return res
     atoms = atoms_for(spec, rich)
     a0 = atoms[first]
     cands = [[a0]] if first == 0 or True else []
